@@ -11,7 +11,7 @@ if [ "${1:-}" = clean ]; then
 fi
 patch=$1; shift
 if [ ! -d "$WT" ]; then git -C /repo worktree add --detach "$WT" >/dev/null 2>&1 || exit 2; fi
-git -C "$WT" checkout -q -- . ; git -C "$WT" clean -fdq
+git -C "$WT" checkout -q -- . ; git -C "$WT" clean -fdq; git -C "$WT" checkout -q --detach "$(git -C /repo rev-parse HEAD)"
 if [ "$patch" != "-" ]; then git -C "$WT" apply "$patch" || { echo "patch does not apply"; exit 2; }; fi
 rm -rf "$H"; mkdir -p "$H" "$O"
 cp -r /verif/harness/src /verif/harness/Cargo.toml /verif/harness/Cargo.lock /verif/harness/.cargo "$H"/
